@@ -232,9 +232,9 @@ class Ref:
             if nd.labels or nd.unknown_label:
                 return Val(self.beh.label(nd, k))
             v = node_value(self.spec, nd, self.beh.base(nd), kwargs, self.bad)
-            if nd.recurrent and nd.want_max > 0:
+            if nd.recurrent and (nd.want_max > 0 or nd.rec_pattern):
                 rc = self.rec_count.get(nd.name, 0)
-                if rc < self.beh.want(nd):
+                if self.beh.asks_again(nd, k, rc):
                     self.rec_count[nd.name] = rc + 1
                     data = None if self.beh.rec_data_is_none(nd, rc) else v + self.beh.rec_offset(nd)
                     return RecOut(data, dict(kwargs))
